@@ -460,7 +460,8 @@ def run(ctx: Ctx):
 
     ctx.rule = (
         "configurations (group, D, M, k, parity): groups B_D (make_all_operators), its rotation "
-        "subgroup, C2^D (make_C2_group), cyclic <rot90>, cyclic axis permutations (D=3), trivial; "
+        "subgroup, C2^D (make_C2_group), cyclic <rot90>, cyclic axis permutations (D=3), trivial, and the same groups "
+        "listed in reversed / rotated order (identity not first; M<=3, k<=1); "
         "quick D=2: M<=4, k<=2; D=3: M<=2, k<=1; thorough D=2: M<=5, k<=4; D=3: M<=3, k<=2; both "
         "parities; every configuration of the grid is run (exhaustive over the grid, no sampling). "
         "A family case is non-trivial when |G| > 1 and 0 < dim(invariants) < M^D * D^k; bank cases "
@@ -502,6 +503,20 @@ def run(ctx: Ctx):
                     for p in (0, 1):
                         run_config(ctx, geom, gname, ops, d, M, k, p)
             log(f"[C03] D={d} group {gname} done at {time.time() - t_start:.0f}s")
+    # the same groups listed in another order (identity not first): the family is a property of the group,
+    # not of the order in which its elements are listed
+    for d in (2, 3):
+        groups = groups_for(geom, d)
+        Ms, ks = ([2, 3], [0, 1]) if d == 2 else ([2], [0, 1])
+        for gname in ("B", "C4", "C2", "SO"):
+            ops = groups[gname]
+            for vname, vops in ((gname + "-reversed", ops[::-1]), (gname + "-rotated", ops[1:] + ops[:1])):
+                if ctx.tier == "quick" and d == 3 and vname.endswith("rotated"):
+                    continue
+                for M in Ms:
+                    for k in ks:
+                        for p in (0, 1):
+                            run_config(ctx, geom, vname, vops, d, M, k, p)
     # assembled banks
     for d, M, ks in ((2, 3, [0, 1, 2]), (2, 2, [0, 1]), (3, 2, [0, 1])):
         groups = groups_for(geom, d)
